@@ -367,3 +367,66 @@ def check_swap_table(ctx):
                    f'{txt(cond)}', isinstance(cond, ast.Compare) and
                    isinstance(cond.ops[0], ast.NotEq) and two in txt(cond),
                    at=meth.where(filt[0]))
+
+
+# ------------------------------------------------------------ INDEX-PRUNE --
+
+def check_index_prune(ctx):
+    '''RList.__contains__ is `key in self._index`: a key must disappear from
+    the reverse map together with its last position.  Every method that
+    removes a position from a list of the map (`.remove`, `.pop`) tests the
+    list for emptiness and deletes the key (the sibling methods all do).'''
+    program = ctx.program
+    klass = program.cls(RL)
+    contains = klass.methods.get('__contains__')
+    by_key = contains is not None and any(
+        isinstance(n, ast.Compare) and isinstance(n.ops[0], ast.In) and
+        txt(n.comparators[0]) == 'self._index'
+        for n in ast.walk(contains.node))
+    if not by_key:
+        ctx.undecided('INDEX-PRUNE', klass, '__contains__ does not test the '
+                      'keys of the reverse map: rule not applicable')
+        return
+    n = 0
+    for meth in klass.methods.values():
+        aliases = {}
+        for node in walk_local(meth.node):
+            if isinstance(node, ast.Assign) and isinstance(
+                    node.targets[0], ast.Name) and isinstance(
+                        node.value, ast.Subscript) and txt(
+                            node.value.value) == 'self._index':
+                aliases[node.targets[0].id] = txt(node.value.slice)
+        removals = []
+        for node in walk_local(meth.node):
+            if isinstance(node, ast.Call) and call_name(node) in (
+                    'remove', 'pop') and receiver(node) is not None:
+                recv = receiver(node)
+                if isinstance(recv, ast.Name) and recv.id in aliases:
+                    removals.append((node, recv.id))
+                elif isinstance(recv, ast.Subscript) and txt(
+                        recv.value) == 'self._index':
+                    removals.append((node, None))
+        for call, alias in removals:
+            n += 1
+            pruned = False
+            for node in walk_local(meth.node):
+                if isinstance(node, ast.If):
+                    test = node.test
+                    empt = isinstance(test, ast.UnaryOp) and isinstance(
+                        test.op, ast.Not) and (
+                            txt(test.operand) == alias or
+                            'self._index' in txt(test.operand))
+                    dels = any(isinstance(s, ast.Delete) and 'self._index'
+                               in txt(s) for s in node.body)
+                    if empt and dels and node.lineno > call.lineno:
+                        pruned = True
+            ctx.decide('INDEX-PRUNE', meth,
+                       f'RList.{meth.name}: {txt(call)[:50]} is followed by '
+                       f'the deletion of an emptied key', pruned,
+                       at=meth.where(call),
+                       detail='the key stays in the reverse map with an '
+                              'empty list: `x in rlist` (and `node in '
+                              'graph`) remain true after the removal, the '
+                              'node cannot be added again'
+                       if not pruned else None)
+    ctx.floor('INDEX-PRUNE', n, 1, 'removals from a list of the reverse map')
